@@ -153,6 +153,26 @@ def run(ctx):
             if prob:
                 ctx.violation("C19/parse/" + ("crash" if "exception" in prob else "selection"), prob, {"cmd": "parse", "n": n, "idx": i})
     mixed_section(ctx, tmp)
+    # ---- Shown(n, i) beyond the display limits: files longer than --max-items (default 20), and small explicit limits; the limits
+    # shorten what is printed of a packet or of a listing, never which packet an index selects
+    for n, opts, idxs in ((30, [], (0, 19, 20, 21, 22, 29, 30, 31)), (45, [], (21, 44, 45)), (7, ["--max-items=4"], (0, 2, 3, 4, 5, 6, 7)),
+                          (12, ["--max-items=5", "--max-string=2"], (0, 1, 4, 5, 6, 11, 12)), (25, ["--max-items=40"], (0, 24, 25))):
+        path = make_file(tmp, n, f"large{n}-{len(opts)}.bin")
+        for i in idxs:
+            rc, out, exc = in_process(["parse", path, xt, f"--packet={i}"] + opts)
+            ctx.traces += 1
+            ctx.count(("parse-limits", n, i, tuple(opts)))
+            shown = sorted({int(t) - APID0 for toks in table_lines(out) for t in toks if re.fullmatch(r"\d+", t) and APID0 <= int(t) < APID0 + 64})
+            prob = None
+            if rc != 0 or exc is not None or "Traceback" in out:
+                prob = f"exit code {rc}, exception {exc!r}"
+            elif 0 <= i < n and shown != [i]:
+                prob = f"shows packets {shown}, expected packet {i}: {out[:120]!r}"
+            elif not (0 <= i < n) and (shown or not out.strip()):
+                prob = f"expected an out-of-range message and no packet, got packets {shown}"
+            if prob:
+                ctx.violation("C19/parse-limits/" + ("crash" if "exception" in prob else "selection"), f"file of {n} packets, {' '.join(opts) or 'default limits'}, "
+                              f"index {i}: {prob}", {"cmd": "parse-limits", "n": n, "idx": i, "opts": opts})
     # ---- termination and robustness on files that do not end on a packet boundary / are empty (child process, time limit)
     extra = [("empty", make_file(tmp, 0, "empty.bin")), ("truncated-header", make_file(tmp, 3, "th.bin", b"\x08\x64\xc0")),
              ("truncated-body", make_file(tmp, 3, "tb.bin", defs.mk_packet(bytes(20), apid=7)[:12])),
